@@ -59,6 +59,32 @@ def generate(seed, tier="quick"):
                 op["fault"] = {"kind": rng.choice(["L_raises", "position_raises"]),
                                "at_call": rng.randrange(10_000)}
         ops = _retry_after_faults(ops)
+    # overlapped caller threads at the end of the history (each caller advances its own mineral)
+    if len(world["minerals"]) >= 2 and not big and rng.random() < 0.15:
+        last_t = {}
+        bulk_ms = set()
+        for op in ops:
+            if op["op"] == "update_all":
+                for m in op["ms"]:
+                    last_t[m] = max(last_t.get(m, 0.0), op["t1"])
+            elif op.get("m") is not None and "t1" in op:
+                last_t[op["m"]] = max(last_t.get(op["m"], 0.0), op["t1"])
+        for _ in range(rng.randint(1, 3)):
+            ms = rng.sample(range(len(world["minerals"])), 2)
+            intervals, faults = [], {}
+            for m in ms:
+                a = last_t.get(m, 0.0)
+                b = a + rng.choice([0.05, 0.2, 0.5])
+                intervals.append([a, b])
+                last_t[m] = b
+            if rng.random() < 0.3:
+                faults[str(rng.choice(ms))] = {"kind": rng.choice(SIMPLE_FAULTS),
+                                               "at_call": rng.randrange(10_000)}
+            ops.append({"op": "overlap", "ms": ms, "intervals": intervals, "faults": faults,
+                        "baton": [rng.randrange(6) for _ in range(rng.randint(8, 120))]})
+            for m, iv in zip(ms, intervals):
+                if str(m) in faults:
+                    ops.append({"op": "update", "m": m, "t0": iv[0], "t1": iv[1]})
     return {"property": PROPERTY, "engine": "world", "seed": seed, "world": world, "ops": ops}
 
 
@@ -119,7 +145,7 @@ def execute(scn):
         if tmp:
             shutil.rmtree(tmp, ignore_errors=True)
     log = world.log
-    n_upd = sum(1 for r in log if r["op"] in ("update", "update_all"))
+    n_upd = sum(len(r.get("sub") or [r]) for r in log if r["op"] in ("update", "update_all", "overlap"))
     fired = {}
     for r in log:
         if r.get("fault") and r.get("fired"):
@@ -137,6 +163,7 @@ def execute(scn):
                               and r["status"] == "ok"),
             "snapshots_checked": mon.n_snap_checked,
             "restarts": sum(1 for r in log if r["op"] == "restart"),
+            "overlap_ops": sum(1 for r in log if r["op"] == "overlap"),
             "bulk_updates": sum(1 for r in log if r["op"] == "update_all"),
             "bulk_updates_failed_part_way": sum(1 for r in log if r["op"] == "update_all"
                                                 and r["status"] != "ok" and r.get("fired")),
@@ -185,7 +212,7 @@ ASSUMPTIONS = [
     "scipy LSODA trusted as a black box",
     "updates that raise without an injected fault are counted as rejected (statement quantifies over accepted updates)",
 ]
-PROBES = ["restarts", "bulk_updates", "bulk_updates_failed_part_way", "init_checked", "long_history(>=50 updates)",
+PROBES = ["restarts", "overlap_ops", "bulk_updates", "bulk_updates_failed_part_way", "init_checked", "long_history(>=50 updates)",
           "zero_volume_grain_present", "fault_fired.L_raises", "fault_fired.solver_failed"]
 
 
